@@ -14,8 +14,8 @@ SHARDS = {"quick": 1, "thorough": 14}
 WATCHDOG = {"quick": 900, "thorough": 3000}
 SANITIZE = {"quick": ["asan", "bounds"], "thorough": ["asan", "bounds"]}
 SANITIZE_SHARDS = {"quick": 1, "thorough": 1}
-REQUIRED_CLASSES = {t: ["refine:interior_point", "refine:duplicate", "refine:first_or_last_segment", "nan:single",
-                        "nan:adjacent_pair", "nan:next_to_reversal", "affine:dyadic_exact", "affine:generic_float",
+REQUIRED_CLASSES = {t: ["refine:interior_point", "refine:duplicate", "refine:first_or_last_segment", "refine:fed_in_chunks", "nan:single",
+                        "nan:adjacent_pair", "nan:next_to_reversal", "affine:dyadic_exact", "affine:extreme_scale", "affine:generic_float",
                         "series:range", "series:int", "series:float", "series:datetime", "series:string"]
                     for t in ("quick", "thorough")}
 REQUIRED_MONITORS = ["refinement:values", "refinement:indices", "negation:values", "negation:indices",
@@ -107,8 +107,15 @@ def run_case(case, ctx):
     ref_sig, pos = _refine(rng, sig, ctx)
     pos = np.asarray(pos, dtype=np.int64)
     xr = np.asarray(ref_sig)
+    # a third of the refined signals is fed in consecutive chunks (borders preferably inside what was inserted)
+    feed = [xr]
+    if len(xr) > 3 and case["rseed"] % 3 == 0:
+        k = int(rng.integers(1, min(4, len(xr) - 1) + 1))
+        cuts = sorted(set(int(c) for c in rng.choice(np.arange(1, len(xr)), size=k, replace=False)))
+        feed = [xr[a:b] for a, b in zip([0] + cuts, cuts + [len(xr)])]
+        ctx.tag("refine:fed_in_chunks")
     for d in rf.DETECTORS:
-        got = rf.run(d, [xr])
+        got = rf.run(d, feed)
         _cmp_vals(ctx, "refinement:values", got, base[d], {"detector": d, "refined": ref_sig})
         if d != "fkm":
             # the last sample of the refined signal may be a trailing duplicate: residual's last index is n'-1
@@ -134,6 +141,10 @@ def run_case(case, ctx):
     if integral:
         a = float(2.0 ** int(rng.integers(-6, 7)) * int(rng.integers(1, 8)))
         b = float(int(rng.integers(-64, 65)) * 2.0 ** int(rng.integers(-4, 3)))
+        if rng.random() < 0.15:
+            # "every scale a > 0": signals in units that make them astronomically small or large (pure scaling, exact)
+            a, b = float(2.0 ** int(rng.choice([-560, -300, 300, 560]))), 0.0
+            ctx.tag("affine:extreme_scale")
         ctx.tag("affine:dyadic_exact")
         for d in ("threepoint", "fourpoint"):
             got = rf.run(d, [a * x + b])
